@@ -465,6 +465,9 @@ def main(rep, tier, only):
             else:
                 rep.ok("W-types", wid, site, text, how="compiles")
     rep.extra["exhaustive"] = True
+    if only in (None, "QUOT"):
+        from checks import c06_div
+        c06_div.rules(rep, db)
     rep.explanation = ("Conversions: abstract interpretation of the real call chain per integer region of the source (finite domain; every "
                        "comparison is against a constant, every conversion inside a region is value-preserving, a uniform wrap, or flagged). "
                        "clamp over weak orders. Guards by structured dominance. No value of the library is computed.")
